@@ -250,9 +250,9 @@ def run_params(case):
         # walk through transmissions and deliveries in time order: a request may only go out when the previous one has been
         # answered (a repeat of the outstanding request is a retransmission on a link that needs resending)
         def _pat(ch, d):
-            # read and write replies carry no more than the parameter id: a late duplicate of an earlier reply for the same
-            # parameter cannot be told from the answer (protocol limit), whichever of the two channels it is on
-            return (3, bytes(d[:3])) if ch == 3 else ('rw', bytes(d[:idw]))
+            # read and write replies carry no more than the parameter id: a late duplicate of an earlier reply on the same channel
+            # for the same parameter cannot be told from the answer (protocol limit); one on the other channel can
+            return (3, bytes(d[:3])) if ch == 3 else (ch, bytes(d[:idw]))
         merged = []
         for kind, j in link.order:
             if kind == 'tx' and j >= n_tx0:
@@ -269,7 +269,12 @@ def run_params(case):
         for tt, _, kind, ch, d in merged:
             if kind == 'tx':
                 this = (ch, bytes(d))
-                if resending and this in put_seq[:ptr] and (waiting is not None or ptr >= len(put_seq) or put_seq[ptr] != this):
+                if resending and this in put_seq[:ptr] and ptr < len(put_seq) and put_seq[ptr] == this:
+                    # the next request to be issued is byte-identical to an earlier one: this transmission may be that request or a
+                    # retransmission, the wire cannot tell - no verdict from here on
+                    out.feat('walk-stopped-at-ambiguous-repeat')
+                    break
+                if resending and this in put_seq[:ptr]:
                     continue    # retransmission of an earlier request (its retry timer only stops on a reply on its own channel)
                 if ptr >= len(put_seq) or put_seq[ptr] != this:
                     if resending:
